@@ -49,6 +49,14 @@ def strip_status_hex(h):
     except ValueError:
         return h
     parts = b.split(b"\n")
+    # a program that ends without a line break has main.rs's closing status line glued to its last
+    # output (`AB   Completed target f.lc3`): cut that line where the padding of the status part
+    # begins (its last run of two or more blanks), provided it names a file
+    if len(parts) >= 2 and parts[-1] == b"" and not parts[-2].startswith(b" "):
+        m = re.search(rb" {2,}(?=\S)(?!.* {2,}\S)[^\n]*\.(asm|lc3|obj)$", parts[-2])
+        if m:
+            parts[-2] = parts[-2][:m.start()]
+            parts = parts[:-1]      # the line break belonged to the status line
     kept = [ln for i, ln in enumerate(parts) if not (_is_status_line(ln) and i < len(parts) - 1)]
     out = b"\n".join(kept).hex()
     return out if out else "-"
